@@ -161,4 +161,17 @@ def serverServe (m : PathB → PathB → Bool) (errLen : Nat → Nat) (rules : L
   else if r.ret ≥ 400 then { r with client := clientOps (errorOps errLen r.ret) r.client }
   else r
 
+/-- `httpserver.Path.Matches` on clean paths (no `.`/`..`/empty segments — what the stream
+generates; the general function is C03's): "/" and "" match everything, otherwise a prefix test on
+the lower-cased text (`CaseSensitivePath` is false by default). -/
+def lowerByte (b : UInt8) : UInt8 := if 65 ≤ b ∧ b ≤ 90 then b + 32 else b
+
+def isPrefixB : PathB → PathB → Bool
+  | [], _ => true
+  | _ :: _, [] => false
+  | a :: as, b :: bs => a == b && isPrefixB as bs
+
+def cleanPathMatches (p base : PathB) : Bool :=
+  base == [47] || base == [] || isPrefixB (base.map lowerByte) (p.map lowerByte)
+
 end Casket.Log
